@@ -493,6 +493,12 @@ def build_model(cfg):
         else:
             np.savetxt(fn, np.column_stack([np.arange(N), np.logspace(np.log10(pmin), np.log10(pmax), N) / 1e5]))
             press = FilePressureProfile(filename=fn, usecols=1, units='bar', reverse=True)
+    elif c['press'] == 'file-tab':       # a TAB separated file read with an explicit delimiter
+        from taurex.pressure import FilePressureProfile
+        fn = os.path.join(_dir('c16pfile'), 'p.txt')
+        np.savetxt(fn, np.column_stack([np.arange(N), np.logspace(np.log10(pmax), np.log10(pmin), N) * (1.07 if _BY[0] else 1.0)]),
+                   delimiter='\t')
+        press = FilePressureProfile(filename=fn, usecols=1, delimiter='\t')
     else:
         raise ValueError(c['press'])
     kw = dict(planet=Planet(planet_mass=gv('pl.m', 0.8), planet_radius=gv('pl.r', 1.1),
@@ -1038,6 +1044,30 @@ def spectrum_case(case):
                     r.check(ref.same_numbers(ce['native_spectrum'], np.asarray(comp[1], float), exact=False, rtol=1e-12),
                             'b:contributions', 'b/contributions/component-spectrum/%s' % cls, source=cname,
                             component=comp[0])
+        # ... and as the program itself asks for them (the requested size reduced by three, a plain integer): no entry of
+        # any source or component holds more optical depths than that reduced level allows
+        try:
+            sc_min = store_contributions(binner, m, output_size=OutputSize[size] - 3)
+            def _tau_keys(dct, pre=''):
+                out_ = []
+                for k_, v_ in dct.items():
+                    if isinstance(v_, dict):
+                        out_ += _tau_keys(v_, pre + k_ + '/')
+                    elif 'tau' in k_:
+                        out_.append(pre + k_)
+                return out_
+            tk = _tau_keys(sc_min)
+            lvl = int(OutputSize[size]) - 3         # a plain integer: heavy - 3 is the size 'light', the others lie below
+            allowed = set()
+            if lvl > int(OutputSize.lighter) and bl != 'native':
+                allowed.add('binned_tau')
+            if lvl > int(OutputSize.light):
+                allowed.add('native_tau')
+            extra_tau = [k_ for k_ in tk if k_.split('/')[-1] not in allowed]
+            r.check(not extra_tau, 'b:contributions', 'b/contributions/tau-beyond-reduced-size/%s' % cls,
+                    keys=extra_tau[:6], level=lvl)
+        except Exception as e:
+            r.check(False, 'b:contributions', 'b/contributions/raised-minimal/%s/%s' % (type(e).__name__, cls), exc=repr(e))
     # the dictionary goes to a file and comes back unchanged
     fn = os.path.join(fx.fresh_dir('c16b'), 's.h5')
     snapshot = dict((k, np.array(v, copy=True)) for k, v in out.items())
@@ -1112,7 +1142,7 @@ def explore(ctx):
         'kind': ['T', 'Tnew', 'E3', 'D2'],
         'temp': ['iso', 'guillot', 'npoint0', 'npoint1P', 'npoint2', 'rodgers', 'rodgersC', 'tfile', 'tarray',
                  'tarrayP'],
-        'press': ['simple', 'array', 'file', 'array-reversed'],
+        'press': ['simple', 'array', 'file', 'array-reversed', 'file-tab'],
         'gases': ['h2o', 'three', 'twolayer', 'power', 'array', 'twopoint', 'chemfile'],
         'fill': ['H2He', 'H2', 'H2HeN2', 'He', 'CH4H2'],
         'contribs': ['abs', 'abs+ray', 'abs+cia', 'abs+clouds', 'abs+lee', 'abs+flat', 'all'],
